@@ -141,7 +141,9 @@ struct Run {
     std::vector<BlockParameters> mybps;         // mirror of the exporter's parameter sets (for blocks the application keeps itself)
     std::unique_ptr<CdnsBlock> ext;             // a block used directly through the CdnsBlock API
 
-    void run(const json& h) {
+    // one history = begin(h); step(op) for every op; finish(h).  run(h) does all of it; the pieces allow two instances
+    // to be operated alternately on one thread (instance isolation without threads)
+    void begin(const json& h) {
         comp = h.value("comp", "none");
         outkind = h.value("out", "file");
         tr->emit({{"e", "R"}, {"comp", comp}, {"out", outkind}, {"preamble", h["preamble"]}});
@@ -149,78 +151,80 @@ struct Run {
         mybps = fp.m_block_parameters;
         ext.reset(new CdnsBlock(mybps[0], 0));
         open_first(fp);
-        for (auto& op : h["ops"]) {
-            std::string o = op["op"];
-            json ev = {{"e", "C"}, {"op", op}};
-            std::size_t ret = 0;
-            pending_out.clear();
-            try {
-                boost::optional<BlockStatistics> st;
-                if (op.contains("stats")) st = vr::stats_in(op["stats"]);
-                if (o == "qr") ret = exp->buffer_qr(vr::qr_in(op["r"]), st);
-                else if (o == "aec") ret = exp->buffer_aec(vr::aec_in(op["r"]), st);
-                else if (o == "mm") ret = exp->buffer_mm(vr::mm_in(op["r"]), st);
-                else if (o == "wb") ret = exp->write_block();
-                else if (o == "rot" && op.value("mismatch", false) && outkind == "fd") ret = rotate_mismatch(op.value("export", false));
-                else if (o == "rot") ret = rotate(op.value("export", false));
-                else if (o == "rotbad") {
-                    // a rotation that cannot succeed (a descriptor that is not open / a name in a directory that does not
-                    // exist); the call reports it.  Only used where outputs are compared, not modelled (C20 byte identity).
-                    pending_out = outkind == "file" ? cur_name + suffix() : cur_path;
-                    if (outkind == "file") ret = exp->rotate_output(g_tmpdir + "/no-such-dir/x", op.value("export", false));
-                    else ret = exp->rotate_output(-1, op.value("export", false));
-                }
-                else if (o == "addbp") { BlockParameters bp = vr::bp_in(op["bp"]); ret = exp->add_block_parameters(bp); mybps.push_back(bp); }
-                else if (o == "setbp") ret = exp->set_active_block_parameters(static_cast<index_t>(op["i"].get<uint64_t>())) ? 1 : 0;
-                else if (o == "counts") ret = 0;
-                else if (o == "editbp") { exp->get_active_block_parameters_ref() = vr::bp_in(op["bp"]); mybps[exp->get_active_block_parameters()] = vr::bp_in(op["bp"]); ret = 0; }
-                // ---- a block the application keeps itself, filled through the generic CdnsBlock API
-                else if (o == "xnew") { index_t i = static_cast<index_t>(op["i"].get<uint64_t>()); ext.reset(new CdnsBlock(mybps.at(i), i)); ret = 0; }
-                else if (o == "xset") { index_t i = static_cast<index_t>(op["i"].get<uint64_t>()); ret = ext->set_block_parameters(mybps.at(i), i) ? 1 : 0; }
-                else if (o == "xclear") { ext->clear(); ret = 0; }
-                else if (o == "xqr") ret = ext->add_question_response_record(vr::qr_in(op["r"]), st) ? 1 : 0;
-                else if (o == "xaec") ret = ext->add_address_event_count(vr::aec_in(op["r"]), st) ? 1 : 0;
-                else if (o == "xmm") ret = ext->add_malformed_message(vr::mm_in(op["r"]), st) ? 1 : 0;
-                else if (o == "xwb") ret = exp->write_block(*ext);
-                else if (o == "xmove") {
-                    // the kept block changes its place (the application holds its blocks by value): the block that takes
-                    // over is the same block - content, stated parameter set and the parameters it is filled under
-                    std::string how = op.value("how", "mctor");
-                    if (how == "mctor") { std::unique_ptr<CdnsBlock> n(new CdnsBlock(std::move(*ext))); ext = std::move(n); }
-                    else if (how == "cctor") { std::unique_ptr<CdnsBlock> n(new CdnsBlock(*ext)); ext = std::move(n); }
-                    else if (how == "massign") { std::unique_ptr<CdnsBlock> n(new CdnsBlock(mybps[0], 0)); *n = std::move(*ext); ext = std::move(n); }
-                    else if (how == "cassign") { std::unique_ptr<CdnsBlock> n(new CdnsBlock(mybps[0], 0)); *n = *ext; ext = std::move(n); }
-                    else {      // a std::vector of blocks that grows
-                        std::vector<CdnsBlock> v;
-                        v.reserve(1);
-                        v.emplace_back(std::move(*ext));
-                        for (int k = 0; k < 3; k++) v.emplace_back(mybps[0], 0);
-                        ext.reset(new CdnsBlock(std::move(v[0])));
-                    }
-                    ret = 0;
-                }
-                else if (o == "wbx") {
-                    // a block the application builds directly with the raw add_* API and hands to write_block(block)
-                    index_t bpi = static_cast<index_t>(op["bpi"].get<uint64_t>());
-                    BlockParameters bp = vr::bp_in(op["bp"]);
-                    CdnsBlock blk(bp, bpi);
-                    vr::raw_block_fill(blk, op);
-                    if (op.value("noidx", false)) blk.m_block_preamble.block_parameters_index = boost::none;   // implicit index 0
-                    ev["items"] = blk.get_item_count();
-                    ret = exp->write_block(blk);
-                }
-                else { fprintf(stderr, "unknown op %s\n", o.c_str()); _exit(3); }
-            } catch (std::exception& e) {
-                ev["exc"] = std::string(e.what()).substr(0, 200);
+    }
+    void step(const json& op) {
+        std::string o = op["op"];
+        json ev = {{"e", "C"}, {"op", op}};
+        std::size_t ret = 0;
+        pending_out.clear();
+        try {
+            boost::optional<BlockStatistics> st;
+            if (op.contains("stats")) st = vr::stats_in(op["stats"]);
+            if (o == "qr") ret = exp->buffer_qr(vr::qr_in(op["r"]), st);
+            else if (o == "aec") ret = exp->buffer_aec(vr::aec_in(op["r"]), st);
+            else if (o == "mm") ret = exp->buffer_mm(vr::mm_in(op["r"]), st);
+            else if (o == "wb") ret = exp->write_block();
+            else if (o == "rot" && op.value("mismatch", false) && outkind == "fd") ret = rotate_mismatch(op.value("export", false));
+            else if (o == "rot") ret = rotate(op.value("export", false));
+            else if (o == "rotbad") {
+                // a rotation that cannot succeed (a descriptor that is not open / a name in a directory that does not
+                // exist); the call reports it.  Only used where outputs are compared, not modelled (C20 byte identity).
+                pending_out = outkind == "file" ? cur_name + suffix() : cur_path;
+                if (outkind == "file") ret = exp->rotate_output(g_tmpdir + "/no-such-dir/x", op.value("export", false));
+                else ret = exp->rotate_output(-1, op.value("export", false));
             }
-            ev["ret"] = ret;
-            counters(ev);
-            ev["xcnt"] = {{"items", ext->get_item_count()}, {"qr", ext->get_qr_count()}, {"aec", ext->get_aec_count()},
-                          {"mm", ext->get_mm_count()}, {"bpi", ext->get_block_parameters_index()}};
-            tr->emit(ev);
-            if (!pending_out.empty()) emit_out("rot", pending_out, last_rot_mismatch);
-            last_rot_mismatch = false;
+            else if (o == "addbp") { BlockParameters bp = vr::bp_in(op["bp"]); ret = exp->add_block_parameters(bp); mybps.push_back(bp); }
+            else if (o == "setbp") ret = exp->set_active_block_parameters(static_cast<index_t>(op["i"].get<uint64_t>())) ? 1 : 0;
+            else if (o == "counts") ret = 0;
+            else if (o == "editbp") { exp->get_active_block_parameters_ref() = vr::bp_in(op["bp"]); mybps[exp->get_active_block_parameters()] = vr::bp_in(op["bp"]); ret = 0; }
+            // ---- a block the application keeps itself, filled through the generic CdnsBlock API
+            else if (o == "xnew") { index_t i = static_cast<index_t>(op["i"].get<uint64_t>()); ext.reset(new CdnsBlock(mybps.at(i), i)); ret = 0; }
+            else if (o == "xset") { index_t i = static_cast<index_t>(op["i"].get<uint64_t>()); ret = ext->set_block_parameters(mybps.at(i), i) ? 1 : 0; }
+            else if (o == "xclear") { ext->clear(); ret = 0; }
+            else if (o == "xqr") ret = ext->add_question_response_record(vr::qr_in(op["r"]), st) ? 1 : 0;
+            else if (o == "xaec") ret = ext->add_address_event_count(vr::aec_in(op["r"]), st) ? 1 : 0;
+            else if (o == "xmm") ret = ext->add_malformed_message(vr::mm_in(op["r"]), st) ? 1 : 0;
+            else if (o == "xwb") ret = exp->write_block(*ext);
+            else if (o == "xmove") {
+                // the kept block changes its place (the application holds its blocks by value): the block that takes
+                // over is the same block - content, stated parameter set and the parameters it is filled under
+                std::string how = op.value("how", "mctor");
+                if (how == "mctor") { std::unique_ptr<CdnsBlock> n(new CdnsBlock(std::move(*ext))); ext = std::move(n); }
+                else if (how == "cctor") { std::unique_ptr<CdnsBlock> n(new CdnsBlock(*ext)); ext = std::move(n); }
+                else if (how == "massign") { std::unique_ptr<CdnsBlock> n(new CdnsBlock(mybps[0], 0)); *n = std::move(*ext); ext = std::move(n); }
+                else if (how == "cassign") { std::unique_ptr<CdnsBlock> n(new CdnsBlock(mybps[0], 0)); *n = *ext; ext = std::move(n); }
+                else {      // a std::vector of blocks that grows
+                    std::vector<CdnsBlock> v;
+                    v.reserve(1);
+                    v.emplace_back(std::move(*ext));
+                    for (int k = 0; k < 3; k++) v.emplace_back(mybps[0], 0);
+                    ext.reset(new CdnsBlock(std::move(v[0])));
+                }
+                ret = 0;
+            }
+            else if (o == "wbx") {
+                // a block the application builds directly with the raw add_* API and hands to write_block(block)
+                index_t bpi = static_cast<index_t>(op["bpi"].get<uint64_t>());
+                BlockParameters bp = vr::bp_in(op["bp"]);
+                CdnsBlock blk(bp, bpi);
+                vr::raw_block_fill(blk, op);
+                if (op.value("noidx", false)) blk.m_block_preamble.block_parameters_index = boost::none;   // implicit index 0
+                ev["items"] = blk.get_item_count();
+                ret = exp->write_block(blk);
+            }
+            else { fprintf(stderr, "unknown op %s\n", o.c_str()); _exit(3); }
+        } catch (std::exception& e) {
+            ev["exc"] = std::string(e.what()).substr(0, 200);
         }
+        ev["ret"] = ret;
+        counters(ev);
+        ev["xcnt"] = {{"items", ext->get_item_count()}, {"qr", ext->get_qr_count()}, {"aec", ext->get_aec_count()},
+                      {"mm", ext->get_mm_count()}, {"bpi", ext->get_block_parameters_index()}};
+        tr->emit(ev);
+        if (!pending_out.empty()) emit_out("rot", pending_out, last_rot_mismatch);
+        last_rot_mismatch = false;
+    }
+    void finish(const json& h) {
         // destruction closes the last output
         std::string last = outkind == "file" ? cur_name + suffix() : cur_path;
         if (h.value("unwind", false)) {
@@ -229,6 +233,11 @@ struct Run {
             try { Guard g{exp}; throw std::runtime_error("unrelated application error"); } catch (std::runtime_error&) {}
         } else exp.reset();
         emit_out("destroy", last);
+    }
+    void run(const json& h) {
+        begin(h);
+        for (auto& op : h["ops"]) step(op);
+        finish(h);
     }
 };
 
